@@ -751,7 +751,14 @@ func (g *sgen) failStmt(kind, name string) {
 	g.line("log(\"BEFORE-FAIL\")")
 	switch kind {
 	case "fail-error":
-		switch g.pick(4) {
+		switch g.pick(6) {
+		case 4:
+			// error values need not be strings
+			g.flow["error-non-string"] = true
+			g.line("error({code = 2, msg = %s})", q("boom table from "+name))
+		case 5:
+			g.flow["error-non-string"] = true
+			g.line("error(%d)", 2+g.pick(40))
 		case 0:
 			g.line("error(%s)", q("boom from "+name))
 		case 1:
